@@ -28,6 +28,7 @@ type Program struct {
 	allFuncs  map[*ssa.Function]bool
 	funcByKey map[string]*ssa.Function // pkgpath::RelString
 	srcCache  map[string][]string
+	srcBytes  map[string][]byte
 }
 
 func copyFile(src, dst string) error {
@@ -302,4 +303,34 @@ func (P *Program) liftContracts() {
 		}
 		P.Contracts.Lemmas[fc.Pkg+"::"+name] = lm
 	}
+}
+
+// exprText returns the source text between two positions (single file).
+func (P *Program) exprText(pos, end token.Pos) string {
+	if !pos.IsValid() || !end.IsValid() {
+		return ""
+	}
+	p1, p2 := P.Fset.Position(pos), P.Fset.Position(end)
+	if p1.Filename != p2.Filename {
+		return ""
+	}
+	if _, ok := P.srcCache[p1.Filename]; !ok {
+		P.sourceLine(p1)
+	}
+	b, ok := P.srcBytes[p1.Filename]
+	if !ok {
+		data, err := os.ReadFile(p1.Filename)
+		if err != nil {
+			return ""
+		}
+		if P.srcBytes == nil {
+			P.srcBytes = map[string][]byte{}
+		}
+		P.srcBytes[p1.Filename] = data
+		b = data
+	}
+	if p1.Offset < 0 || p2.Offset > len(b) || p1.Offset >= p2.Offset {
+		return ""
+	}
+	return strings.Join(strings.Fields(string(b[p1.Offset:p2.Offset])), " ")
 }
